@@ -80,6 +80,26 @@ func RefIs(e, r error) (bool, string) {
 	return false, ""
 }
 
+// RefIsByMark tells whether the relation holds through mark equivalence
+// alone (no identity, no Is method), in the chain of e or in a branch.
+func RefIsByMark(e, r error) bool {
+	if e == nil || r == nil {
+		return false
+	}
+	rm := RefMark(r)
+	for c := e; c != nil; c = errbase.UnwrapOnce(c) {
+		if RefMark(c) == rm {
+			return true
+		}
+		for _, b := range errbase.UnwrapMulti(c) {
+			if RefIsByMark(b, r) {
+				return true
+			}
+		}
+	}
+	return false
+}
+
 func refIsDirect(e, r error) (bool, string) {
 	cmp := reflect.TypeOf(r).Comparable()
 	for c := e; c != nil; c = errbase.UnwrapOnce(c) {
